@@ -2,7 +2,7 @@
 rng passed in (derived from VERIF_SEED), so a case replays exactly."""
 import copy
 
-NAMES = ["a", "b", "ab", "a.b", "a-b", "a b", ".a", "..a", "~", "ñ", "añ", "ñx", "日", "a\nb", "B", "a,b"]
+NAMES = ["a", "b", "ab", "a.b", "a-b", "a b", ".a", "..a", "~", "ñ", "añ", "ñx", "日", "a\nb", "B", "a,b", "a?", "[ab]", "b*", "{a,b}"]
 INVALID = ["", ".", "..", "a\0b"]
 
 SIZES = [0, 0, 1, 2, 3, 4, 5, 7, 8, 9, 12, 16, 17, 31, 40]
